@@ -285,7 +285,7 @@ example : isPermOf exPerm 4 = true ∧ isPermOf [0, 2, 2, 3] 4 = false ∧ isPer
 example : (exU.renameAlong exPerm).c = [3, 1, 4, 1] := by decide +kernel
 
 /-- the witness holds: nothing couples the two intervals -/
-theorem exWitness : splitWitness exU [exP1, exP2] exPerm = true := by decide +kernel
+private theorem exWitness : splitWitness exU [exP1, exP2] exPerm = true := by decide +kernel
 
 /-- with the identity matching it does not (the variables are ordered differently) -/
 example : splitWitness exU [exP1, exP2] [0, 1, 2, 3] = false := by decide +kernel
